@@ -5,6 +5,7 @@ package main
 // push/pop/reset is ever needed and one process serves all paths of a worker.
 
 import (
+	"os"
 	"bufio"
 	"fmt"
 	"io"
@@ -177,7 +178,7 @@ func (s *Solver) readLine() (string, error) {
 // verdict does not depend on what this process happened to solve before.
 func (s *Solver) Check(lits []*Term) Verdict {
 	v := s.checkOnce(lits)
-	if v != Unknown || s.noRetry {
+	if v != Unknown || s.noRetry || os.Getenv("GOSYM_NORETRY") != "" {
 		return v
 	}
 	tries := []struct {
@@ -326,7 +327,7 @@ func (s *Solver) Model(vars []*Term) map[*Term]*big.Int {
 	res := map[*Term]*big.Int{}
 	var bvVars []*Term
 	for _, v := range vars {
-		if v.id < len(s.emitted) && s.emitted[v.id] && v.sort.K != SFP {
+		if v.id < len(s.emitted) && s.emitted[v.id] && v.sort.K != SFP && v.sort.K != SReal {
 			bvVars = append(bvVars, v)
 		}
 	}
